@@ -187,27 +187,7 @@ func c17f5DustArguments(o *an.Obl, f *an.Func, name string, tx, bal an.Site, scr
 // (parameters 4, 2) output.
 func c17f5BuilderKeeps(p *an.Prog) map[string]token.Token {
 	b := p.Func(lw + "CreateCooperativeCloseTx")
-	keeps := map[string]token.Token{}
-	for _, st := range b.Body.List {
-		ifs, ok := st.(*ast.IfStmt)
-		if !ok {
-			continue
-		}
-		id, ok := ifs.Cond.(*ast.Ident)
-		if !ok {
-			continue
-		}
-		be, ok := ast.Unparen(b.UniqueDef(id)).(*ast.BinaryExpr)
-		if !ok {
-			continue
-		}
-		switch {
-		case an.Param(3)(b, ast.Unparen(be.X)) && an.Param(1)(b, ast.Unparen(be.Y)):
-			keeps["Local"] = be.Op
-		case an.Param(4)(b, ast.Unparen(be.X)) && an.Param(2)(b, ast.Unparen(be.Y)):
-			keeps["Remote"] = be.Op
-		}
-	}
+	keeps, _ := c17BuilderKeeps(b)
 	return keeps
 }
 
